@@ -233,13 +233,13 @@ def check_branches(chk, it, tabs):
                    'wasmCWriteBranchTableExpr:value')
 
 
-def check_branch_family(chk, it, tabs):
+def check_branch_family(chk, it, tabs, tier='quick'):
     """R03.2/R03.4 over a family: branch instruction x nesting depth x number of extra operands below the value x result type"""
     L = tabs['letter']
     n = 0
     for t_ in ('i32', 'i64', 'f32', 'f64'):
-        for depth in (0, 1, 2):
-            for extras in (0, 1, 2):
+        for depth in ((0, 1, 2) if tier == 'quick' else (0, 1, 2, 3, 5)):
+            for extras in ((0, 1, 2) if tier == 'quick' else (0, 1, 2, 3, 6)):
                 for kind in ('br', 'br_if', 'br_table', 'return'):
                     items = [('block', {'imm0': V[t_]})] + [('block', {'imm0': oracle.BLOCKTYPE_VOID})] * depth
                     items += [const('i64', 5)] * extras + [const(t_, 3)]
@@ -508,7 +508,7 @@ def run(chk):
     check_locals(chk, it, tabs)
     check_function_body(chk, tus, tabs)
     check_function_sequence(chk)
-    check_branch_family(chk, emit.make_interp(tus), tabs)
+    check_branch_family(chk, emit.make_interp(tus), tabs, chk.tier)
     chk.floor('R03.1', 20)
     chk.floor('R03.2', 40)
     chk.floor('R03.3', 400)
